@@ -188,7 +188,11 @@ def run(ctx):
             g = t[3][0][1]
             if g[0] in ('list', 'tuple') and len(g[1]) == 1 and isinstance(g[1][0], tuple) and g[1][0][0] == 'each':
                 ea = g[1][0]
-                return tuple(pc) + tuple(ea[3]), ea[4]
+                conds = tuple(ea[3])
+                while isinstance(ea[4], tuple) and ea[4] and ea[4][0] == 'each':       # for x in T for y in x.c if C: one more loop inside
+                    ea = ea[4]
+                    conds += tuple(ea[3])
+                return tuple(pc) + conds, ea[4]
         return pc, t
     rets = [first_of(pc, t) for pc, t in rets]
     rets = [(tuple(a for a in pc if a[0][0] != 'caught'), t) for pc, t in rets]
